@@ -173,6 +173,8 @@ func Builtin() []Doc {
 		h("host1", `<!DOCTYPE html><html><head><style> a { color : #ff0000 ; } </style><script> var abc = 1 + 2 ; console.log( abc ) </script></head><body style=" margin : 0px ; " onclick=" return  false ; "><svg width="100" height="100"><style> rect { fill : red } </style><rect x="0.50" y="1.00" width="10" height="10" style=" stroke : #000000 "/></svg><p>  text  <b> bold </b>  </p></body></html>`),
 		h("host2", `<div><script type="application/ld+json"> { "a" : [ 1 , 2.0 , 3e0 ] } </script><script type="module"> import x from "y" ; export default x </script><a href="data:text/css;base64,YSB7IGNvbG9yIDogcmVkIDsgfQ==">x</a><math><mi> x </mi></math></div>`),
 		h("host3", `<p>a</p><iframe srcdoc="<p> x </p>"></iframe><style media="screen">@media screen { a { b : c } }</style><img src="data:image/svg+xml,%3Csvg%20xmlns='http://www.w3.org/2000/svg'%3E%3Cpath%20d='M 10 10 L 20 20'/%3E%3C/svg%3E">`),
+		h("urls1", `<a href="https://example.com/dir/page.html">x</a><img src="http://example.com/i.png"><link href="data:text/css;base64,YSB7IGNvbG9yIDogcmVkIDsgfQ=="><a href="https://example.com/other">y</a>`),
+		h("urls2", `<p><a href="http://example.com/">h</a></p><img src="data:image/svg+xml,%3Csvg%20xmlns='http://www.w3.org/2000/svg'%3E%3Cpath%20d='M 10 10 L 20 20'/%3E%3C/svg%3E"><a href="https://example.com/dir/a?b=c">z</a>`),
 		h("bad-js", `<DIV CLASS="A">  x  </DIV><script>var a = ;</script><p> tail </p>`),
 		h("bad-css-in-svg", `<p>x</p><svg><style> a { b : ( } </style><path d="M0 0"/></svg>`),
 		{MT: "application/javascript", Name: "builtin/bad1", Src: "builtin", Data: []byte("var x = ;")},
